@@ -30,6 +30,9 @@ def make_scenarios(ctx, count):
         ops = []
 
         def feed(ifc, fr, tag):
+            if i % 2 and rng.random() < 0.2:      # the clock moves on by an arbitrary amount between frames
+                s.add("ADV %d" % rng.choice(s.GAPS_MS))
+                s.meta["clock_gaps"] = s.meta.get("clock_gaps", 0) + 1
             s.frame(ifc, fr)
             ops.append((tag, ifc, fr))
         gen = rng.choice([1, 7, 0x1234])
@@ -66,13 +69,15 @@ def make_scenarios(ctx, count):
             s.add("DELIVER 0 1")
             ops.append(("DELIVER", descs))
             for _ in range(rng.randint(0, 2)):
-                feed(1, G.f_discover(rng, netb, m=m, tos=0, bridged=bridged and not b_is_bridge, gen=gen), "F")
+                # the mapper repeats its Discover before querying, sometimes already under a new generation number
+                feed(1, G.f_discover(rng, netb, m=m, tos=0, bridged=bridged and not b_is_bridge,
+                                     gen=gen if rng.random() < 0.5 else rng.choice([0, gen + 1, rng.randint(0, 65535)])), "F")
             nq = (n + 8) // max(1, capb) + 2
             for _ in range(nq):
                 seq += 1
                 feed(1, G.f_query(rng, netb, m, seq=seq, bridged=bridged and not b_is_bridge), "QUERY")
             ops.append(("ROUND-END",))
-        s.meta = dict(ops=ops, a=a, b=b, b_is_bridge=b_is_bridge)
+        s.meta.update(ops=ops, a=a, b=b, b_is_bridge=b_is_bridge)
         scns.append(s)
     return scns
 
@@ -156,3 +161,4 @@ def run(ctx):
     run_monitored(ctx, binary, scns, monitor, tag="peer")
     rep.need("frames_delivered", rep.counters.get("frames_delivered", 0), 1000)
     rep.need("frames_delivered_to_the_mappers_bridge", rep.counters.get("frames_delivered_to_the_mappers_bridge", 0), 100)
+    rep.need("clock_gaps_between_frames", rep.counters.get("clock_gaps_between_frames", 0), 200)
